@@ -22,6 +22,12 @@
 #include <control/checkpoint_control.hpp>
 #include <sstream>
 #include <cstring>
+#include <functional>
+#include <unistd.h>
+#include <fcntl.h>
+#include <sys/wait.h>
+#include <sys/resource.h>
+#include <execinfo.h>
 
 using namespace vl;
 
@@ -370,6 +376,8 @@ struct ObjBase
   virtual ~ObjBase() {}
   virtual void add_to(Control::CheckpointControl& cp, const std::string& id) = 0;
   virtual void restore_from(Control::CheckpointControl& cp, const std::string& id) = 0;
+  virtual void restore_reg(Control::CheckpointControl& cp, const std::string& id, bool add) = 0;   // restore_object(id, obj, add)
+  virtual void assign(const vj::Value& c) = 0;                                                      // the user assigns new contents
   virtual vj::Value state(bool& ex) const = 0;
   virtual void write_bin(std::ostream& os) const = 0;
   virtual void read_bin(std::istream& is) = 0;
@@ -381,6 +389,8 @@ template<class CT> struct Obj : ObjBase
   explicit Obj(CT&& o) : obj(std::move(o)) {}
   void add_to(Control::CheckpointControl& cp, const std::string& id) override { cp.add_object(String(id), obj); }
   void restore_from(Control::CheckpointControl& cp, const std::string& id) override { cp.restore_object(String(id), obj, false); }
+  void restore_reg(Control::CheckpointControl& cp, const std::string& id, bool add) override { cp.restore_object(String(id), obj, add); }
+  void assign(const vj::Value& c) override { obj = Ops<CT>::build(c); }
   vj::Value state(bool& ex) const override { return state_of(obj, ex); }
   void write_bin(std::ostream& os) const override { obj.write_out(FileMode::fm_binary, os); }
   void read_bin(std::istream& is) override { obj.read_from(FileMode::fm_binary, is); }
@@ -553,11 +563,248 @@ bool run_stream(Ctx& k, const std::string& tag0)
   return true;
 }
 
+
+// ------------------------------------------------------------------------------------------------
+// the life of ONE CheckpointControl object (spec/PersistCkptLife.tla)
+// ------------------------------------------------------------------------------------------------
+// runs `call` in a forked child (the parent's control object is untouched): 0 = the call returned,
+// otherwise the signal that ended the child (SIGABRT = refused by XASSERT/XABORT), -1 = fork/wait problem,
+// -2 = the call ended with a C++ exception
+static int in_child(const std::function<void()>& call)
+{
+  // FEAT's abort prints a back-trace: load the unwinder once in the parent, not in every child
+  static bool warm = false; if(!warm) { void* b[4]; (void)::backtrace(b, 4); warm = true; }
+  std::fflush(stdout); std::fflush(stderr); std::cout.flush(); std::cerr.flush();
+  pid_t p = ::fork();
+  if(p < 0) return -1;
+  if(p == 0)
+  {
+    int fd = ::open("/dev/null", O_WRONLY); if(fd >= 0) { ::dup2(fd, 2); ::dup2(fd, 1); }
+    ::alarm(60);
+    { struct rlimit rl; rl.rlim_cur = rl.rlim_max = 0; ::setrlimit(RLIMIT_CORE, &rl); }
+    try { call(); } catch(...) { ::_exit(3); }
+    ::_exit(0);
+  }
+  int st = 0;
+  if(::waitpid(p, &st, 0) != p) return -1;
+  if(WIFSIGNALED(st)) return WTERMSIG(st);
+  if(WIFEXITED(st) && WEXITSTATUS(st) == 3) return -2;
+  return 0;
+}
+static std::string child_end(int rc)
+{
+  if(rc == 0) return "returned normally";
+  if(rc == -2) return "ended with an exception";
+  if(rc == -1) return "(fork failed)";
+  return "was ended by signal " + std::to_string(rc);
+}
+
+// the bytes of a checkpoint stream against the layout predicted by the specification (entries refer to the palette)
+static bool check_life_bytes(Ctx& k, const vj::Value& lay, const vj::Value& pal, const char* data, std::size_t size, const std::string& tag)
+{
+  if(size < 8) return k.fail(tag + ": checkpoint shorter than its length word");
+  std::uint64_t total; std::memcpy(&total, data, 8);
+  if((long long)total != lay["total"].as_int() || size != std::size_t(total) + 8)
+    return k.fail(tag + ": checkpoint length word " + std::to_string(total) + " in a stream of " + std::to_string(size) + " bytes, the format prescribes " + std::to_string(lay["total"].as_int()) + " (+8)");
+  std::size_t p = 8; const vj::Value& ents = lay["entries"];
+  for(std::size_t e = 0; e < ents.size(); ++e)
+  {
+    if(p + 8 > size) return k.fail(tag + ": checkpoint ends before entry " + std::to_string(e));
+    std::uint64_t il; std::memcpy(&il, data + p, 8); p += 8;
+    const std::string id = ents[e]["id"].as_str();
+    if(il != id.size() || p + il + 8 > size || std::string(data + p, std::size_t(il)) != id) return k.fail(tag + ": checkpoint entry " + std::to_string(e) + " is not identifier '" + id + "' (entries are stored in identifier order)");
+    p += std::size_t(il);
+    if((long long)(p - 8) != ents[e]["off"].as_int()) return k.fail(tag + ": data of '" + id + "' at byte " + std::to_string(p - 8) + " of the checkpoint, the format prescribes " + std::to_string(ents[e]["off"].as_int()));
+    std::uint64_t dl; std::memcpy(&dl, data + p, 8); p += 8;
+    if((long long)dl != ents[e]["len"].as_int() || p + dl > size) return k.fail(tag + ": checkpoint entry '" + id + "': data length " + std::to_string(dl) + " expected " + std::to_string(ents[e]["len"].as_int()));
+    if(!check_bin(k, pal[std::size_t(ents[e]["o"].as_int()) - 1]["bin"], data + p, std::size_t(dl), tag + "/entry '" + id + "'")) return false;
+    p += std::size_t(dl);
+  }
+  if(p != size) return k.fail(tag + ": trailing bytes in the checkpoint");
+  return true;
+}
+
+template<class DT, class IT>
+struct Life
+{
+  Ctx& k; const vj::Value& c; const vj::Value& pal; const vj::Value& ids;
+  Dist::Comm comm;
+  Control::CheckpointControl cp;                        // the ONE control object of the history
+  std::map<std::size_t, std::unique_ptr<ObjBase>> regobj;   // identifier index -> the user's registered object
+  std::vector<std::unique_ptr<BinaryStream>> slot;          // the user's streams (1..3 given, 4 own)
+  Life(Ctx& kk) : k(kk), c(kk.c), pal(kk.c["palette"]), ids(kk.c["ids"]), comm(Dist::Comm::world()), cp(comm) {}
+
+  std::string idof(std::size_t i) const { return ids[i - 1].as_str(); }
+  const vj::Value& pobj(long long o) const { return pal[std::size_t(o) - 1]; }
+
+  std::unique_ptr<ObjBase> build(long long o, const std::string& tag, bool& good)
+  {
+    std::unique_ptr<ObjBase> obj = make_obj<DT, IT>(pobj(o)["c"], false);
+    bool ex = true; vj::Value pre = obj->state(ex);
+    good = ex && pre == pobj(o)["arrays"];
+    if(!good) k.pre(tag + ": container state " + js(pre) + " is not the state the specification assumes " + js(pobj(o)["arrays"]));
+    return obj;
+  }
+
+  // the three given checkpoints: written by OTHER (short-lived) control objects
+  bool make_given()
+  {
+    slot.clear(); slot.resize(5);
+    const vj::Value& gv = c["given"];
+    for(std::size_t s = 0; s < gv.size(); ++s)
+    {
+      Control::CheckpointControl other(comm);
+      std::vector<std::unique_ptr<ObjBase>> held;
+      const vj::Value& ents = gv[s]["entries"];
+      // registered in reverse identifier order (the stored order is the identifier order)
+      for(std::size_t e = ents.size(); e-- > 0; )
+      {
+        bool good; held.push_back(build(ents[e]["o"].as_int(), "given checkpoint", good)); if(!good) return false;
+        held.back()->add_to(other, ents[e]["id"].as_str());
+      }
+      slot[s + 1].reset(new BinaryStream());
+      other.save(*slot[s + 1]);
+      if(!check_life_bytes(k, gv[s], pal, slot[s + 1]->data(), slot[s + 1]->container().size(), "given checkpoint " + std::to_string(s + 1))) return false;
+    }
+    return true;
+  }
+
+  // ---- observation of the control object's state (none of these calls may change it) -------------------------
+  bool probe(const vj::Value& st, const std::string& tag, bool misuse)
+  {
+    // (1) the registered identifiers
+    std::string want;
+    for(std::size_t i = 1; i <= ids.size(); ++i) if(st["reg"][i - 1].as_int() != 0) { if(!want.empty()) want += "\n"; want += idof(i); }
+    std::string have = cp.get_identifier_list();
+    if(have != want) return k.fail(tag + ": registered identifiers are '" + have + "' expected '" + want + "'");
+    // (2) a save now writes exactly the CURRENT contents of the registered objects
+    {
+      BinaryStream tmp; cp.save(tmp);
+      if(!check_life_bytes(k, st["img"], pal, tmp.data(), tmp.container().size(), tag + "/probe save")) return false;
+    }
+    // (3) the registered objects themselves are what the user put there
+    for(auto& it : regobj)
+    {
+      bool ex = true; vj::Value got = it.second->state(ex); long long o = st["reg"][it.first - 1].as_int();
+      if(o == 0) return k.fail(tag + ": harness holds an object for an unregistered identifier");
+      if(!ex || got != pobj(o)["arrays"]) return k.fail(tag + ": the registered object '" + idof(it.first) + "' is " + js(got) + " expected " + js(pobj(o)["arrays"]));
+    }
+    // (4) restore_object of EVERY identifier: the object of the last loaded checkpoint, or refused
+    for(std::size_t i = 1; i <= ids.size(); ++i)
+    {
+      long long o = st["rst"][i - 1].as_int(); const std::string id = idof(i);
+      if(o > 0)
+      {
+        std::unique_ptr<ObjBase> fresh = make_obj<DT, IT>(pobj(o)["c"], true);
+        fresh->restore_reg(cp, id, false);
+        bool ex = true; vj::Value got = fresh->state(ex);
+        if(!ex || got != pobj(o)["arrays"]) return k.fail(tag + ": object restored for identifier '" + id + "' is " + js(got) + " expected " + js(pobj(o)["arrays"]) + " (what the LAST loaded checkpoint holds)");
+      }
+      else
+      {
+        int rc = in_child([&]() { std::unique_ptr<ObjBase> fresh = make_obj<DT, IT>(pal[0]["c"], true); fresh->restore_reg(cp, id, false); });
+        if(rc != SIGABRT) return k.fail(tag + ": restore_object('" + id + "') must be refused (the loaded input does not contain it) but " + child_end(rc));
+      }
+    }
+    // (5) a further load is refused while input is loaded
+    if(st["loaded"].as_bool())
+    {
+      int rc = in_child([&]() { BinaryStream t; t.write(slot[1]->data(), std::streamsize(slot[1]->container().size())); cp.load(t); });
+      if(rc != SIGABRT) return k.fail(tag + ": load while input is loaded must be refused but " + child_end(rc));
+    }
+    // (6) misuse of the registration calls
+    if(misuse) for(std::size_t i = 1; i <= ids.size(); ++i)
+    {
+      const std::string id = idof(i);
+      if(st["reg"][i - 1].as_int() != 0)
+      {
+        int rc = in_child([&]() { std::unique_ptr<ObjBase> o = make_obj<DT, IT>(pal[0]["c"], false); o->add_to(cp, id); });
+        if(rc != SIGABRT) return k.fail(tag + ": add_object('" + id + "') of a registered identifier must be refused but " + child_end(rc));
+      }
+      else
+      {
+        int rc = in_child([&]() { cp.remove_object(String(id)); });
+        if(rc != SIGABRT) return k.fail(tag + ": remove_object('" + id + "') of an unregistered identifier must be refused but " + child_end(rc));
+      }
+    }
+    return true;
+  }
+
+  bool run(bool dense, const std::string& tag0)
+  {
+    if(!make_given()) return false;
+    const vj::Value& ops = c["ops"];
+    for(std::size_t s = 0; s < ops.size(); ++s)
+    {
+      const vj::Value& o = ops[s]; const std::string op = o["op"].as_str();
+      const std::size_t i = std::size_t(o["i"].as_int()); const long long ov = o["o"].as_int(); const std::size_t sl = std::size_t(o["s"].as_int());
+      const std::string tag = tag0 + "/step " + std::to_string(s + 1) + " " + op + (i ? " '" + idof(i) + "'" : std::string()) + (sl ? " stream " + std::to_string(sl) : std::string());
+      if(op == "add")
+      {
+        bool good; std::unique_ptr<ObjBase> obj = build(ov, tag, good); if(!good) return false;
+        obj->add_to(cp, idof(i));
+        regobj[i] = std::move(obj);
+      }
+      else if(op == "remove") { cp.remove_object(String(idof(i))); regobj.erase(i); }       // the user destroys the object afterwards
+      else if(op == "assign") regobj.at(i)->assign(pobj(ov)["c"]);
+      else if(op == "save")
+      {
+        slot[sl].reset(new BinaryStream());
+        cp.save(*slot[sl]);
+        if(slot[sl]->fail()) return k.fail(tag + ": stream in fail state after saving");
+        if(!check_life_bytes(k, o["img"], pal, slot[sl]->data(), slot[sl]->container().size(), tag)) return false;
+      }
+      else if(op == "load")
+      {
+        if(!slot[sl]) return k.fail(tag + ": no such stream");
+        // loaded from a COPY of the user's stream that is overwritten and destroyed right after the call: load owns its input
+        std::unique_ptr<BinaryStream> t(new BinaryStream());
+        t->write(slot[sl]->data(), std::streamsize(slot[sl]->container().size()));
+        if(o["res"].as_int() == 1)
+        {
+          // an EMPTY checkpoint: try in a child first, so that a crash is reported as such
+          int rc = in_child([&]() { cp.load(*t); });
+          if(rc != 0) { k.fail(tag + ": load of an empty checkpoint (saved with no registered object) " + child_end(rc)); k.why += " [load-empty-checkpoint]"; return false; }
+        }
+        cp.load(*t);
+        for(char& ch : t->container()) ch = char(0xEE);
+        t.reset();
+      }
+      else if(op == "clear") cp.clear_input();
+      else if(op == "restore")
+      {
+        const long long want = o["res"].as_int(); const bool add = o["add"].as_bool();
+        if(want < 1) return k.fail(tag + ": the specification does not define this restore");
+        std::unique_ptr<ObjBase> fresh = make_obj<DT, IT>(pobj(want)["c"], true);
+        fresh->restore_reg(cp, idof(i), add);
+        bool ex = true; vj::Value got = fresh->state(ex);
+        if(!ex || got != pobj(want)["arrays"]) return k.fail(tag + ": object restored for identifier '" + idof(i) + "' is " + js(got) + " expected " + js(pobj(want)["arrays"]) + " (what the LAST loaded checkpoint holds)");
+        if(add) regobj[i] = std::move(fresh);
+      }
+      else return k.fail("unknown life operation " + op);
+      const bool lastStep = (s + 1 == ops.size());
+      if((dense || lastStep) && !probe(o, tag + (dense ? "" : " (no probes before)"), lastStep)) return false;
+    }
+    return true;
+  }
+};
+
+template<class DT, class IT>
+bool run_life(Ctx& k, const std::string& tag)
+{
+  // pass 1: the state is observed after every call; pass 2 (a new control object): only after the last call
+  { Life<DT, IT> a(k); if(!a.run(true, tag)) return false; }
+  { Life<DT, IT> b(k); if(!b.run(false, tag)) return false; }
+  return true;
+}
+
 vj::Value run_case(const vj::Value& c)
 {
   Ctx k(c);
   bool ok; int cdt = int(c["cdt"].as_int());
-  if(c["part"].as_str() == "stream")
+  if(c["part"].as_str() == "life")
+    ok = (cdt == 8) ? run_life<double, std::uint64_t>(k, "f64/u64") : run_life<float, std::uint32_t>(k, "f32/u32");
+  else if(c["part"].as_str() == "stream")
     ok = (cdt == 8) ? run_stream<double, std::uint64_t>(k, "f64/u64") : run_stream<float, std::uint32_t>(k, "f32/u32");
   else if(c["part"].as_str() == "ckpt")
     ok = (cdt == 8) ? run_ckpt<double, std::uint64_t>(k, "f64/u64") : run_ckpt<float, std::uint32_t>(k, "f32/u32");
